@@ -314,6 +314,9 @@ def main(prop_mod, argv=None):
     if args.replay:
         return prop_mod.replay(ctx, json.loads(Path(args.replay).read_text()))
 
+    for old in (VERIF / "replays").glob(f"{prop}-{args.seed}-*.json"):
+        old.unlink()
+
     # 1. Lean: build, forbidden-token grep, axiom audit
     lean = ctx.lean
     if args.no_build and DRV.exists():
